@@ -65,7 +65,7 @@ fn main() {
             std::process::exit(2);
         }
     }
-    let only = arg(&args, "--only", "");
+    let only = arg(&args, "--only-case", "");
     if !only.is_empty() {
         out.restrict(&only);
     }
